@@ -317,7 +317,17 @@ pub fn c12_adaptors(ctx: &mut Ctx, path: &str, mask: u64) {
     }
     let rest: Vec<Vec<u8>> = dq.iter().cloned().collect();
     let k = ((mask >> 52) & 3) as usize;
-    let (name, ok) = match (mask >> 60) & 7 {
+    let kth: Option<Vec<u8>> = rest.get(k).cloned();
+    let kth_back: Option<Vec<u8>> = if rest.len() > k { rest.get(rest.len() - 1 - k).cloned() } else { None };
+    let (name, ok) = match (mask >> 60) & 15 {
+        8 => ("rfold", it.rfold(Vec::new(), |mut a: Vec<Vec<u8>>, s| { a.push(s.as_bytes().to_vec()); a }) == rest.iter().rev().cloned().collect::<Vec<_>>()),
+        9 => ("find(k-th)", { let w = kth.clone(); it.find(|s| Some(s.as_bytes()) == w.as_deref()).map(|s| s.as_bytes().to_vec()) == kth }),
+        10 => ("rfind(k-th from the back)", { let w = kth_back.clone(); it.rfind(|s| Some(s.as_bytes()) == w.as_deref()).map(|s| s.as_bytes().to_vec()) == kth_back }),
+        11 => ("position(k-th)", { let w = kth.clone(); it.position(|s| Some(s.as_bytes()) == w.as_deref()) == rest.iter().position(|s| Some(s) == w.as_ref()) }),
+        12 => ("rev().nth(k)", it.rev().nth(k).map(|s| s.as_bytes().to_vec()) == kth_back),
+        13 => ("all(non-matching)/any", { let n = rest.len(); let mut seen = 0usize; let r = it.all(|_| { seen += 1; true }); r && seen == n }),
+        14 => ("take(k).collect() then rest", { let mut it = it; let a: Vec<Vec<u8>> = it.by_ref().take(k).map(|s| s.as_bytes().to_vec()).collect(); let b2: Vec<Vec<u8>> = it.map(|s| s.as_bytes().to_vec()).collect(); a == rest.iter().take(k).cloned().collect::<Vec<_>>() && b2 == rest.iter().skip(k).cloned().collect::<Vec<_>>() }),
+        15 => ("zip(rev)", { let v: Vec<Vec<u8>> = it.map(|s| s.as_bytes().to_vec()).collect(); v == rest }),
         0 => ("collect()", it.map(|s| s.as_bytes().to_vec()).collect::<Vec<_>>() == rest),
         1 => ("last()", it.last().map(|s| s.as_bytes().to_vec()) == rest.last().cloned()),
         2 => ("count()", it.count() == rest.len()),
